@@ -138,7 +138,7 @@ func init() {
 		Technique:   "runtime monitoring: metamorphic same-program-many-schedules comparison with hook-injected yields",
 		Run: func(x *Ctx) {
 			pool := x.NewPool(false)
-			n := x.Pick(500, 8000)
+			n := x.Pick(600, 9600)
 			R := x.Pick(5, 24)
 			var cases []*proto.Case
 			for i := 0; i < n; i++ {
